@@ -7,6 +7,9 @@ import (
 	"context"
 	"encoding/base64"
 	"encoding/json"
+	"fmt"
+	"os"
+	"runtime"
 	"sort"
 	"strings"
 
@@ -44,6 +47,7 @@ type simTxn struct {
 	changes map[string][]byte
 	order   []string
 	done    bool
+	client  string // simulated client on whose behalf the transaction runs ("" = engine)
 }
 
 func (h *storeHandle) Ping(context.Context) error { return nil }
@@ -67,7 +71,7 @@ func (h *storeHandle) NewTransaction(ctx context.Context, update bool) (database
 		}
 	}
 	s.txSeq++
-	t := &simTxn{h: h, id: s.txSeq, changes: map[string][]byte{}}
+	t := &simTxn{h: h, id: s.txSeq, changes: map[string][]byte{}, client: clientOf(ctx)}
 	s.w.log(Event{Kind: "TX_BEGIN", Inc: h.inc, N: t.id, OK: true})
 	return t, database.ContextWithTransaction(ctx, t), nil
 }
@@ -102,12 +106,42 @@ func (h *storeHandle) Set(ctx context.Context, key string, value []byte) error {
 			return cerrors.Errorf("sim-fault db set %s", key)
 		}
 	}
+	before, stBefore := "", 0
+	if c := clientOf(ctx); c != "" {
+		before = s.cfgDigest()
+		stBefore, _, _ = s.durableStatus(PipelineID)
+	}
+	engineStatusWrite := clientOf(ctx) == "" && !s.passthrough && !s.w.direct && key == "pipeline:instance:"+PipelineID && s.w.or != nil
+	cfgBefore := ""
+	if engineStatusWrite {
+		cfgBefore = s.cfgDigest()
+	}
 	s.apply(map[string][]byte{key: value})
 	s.w.log(Event{Kind: "DB_SET", Ent: key, Inc: h.inc, OK: true, N: s.version})
+	if engineStatusWrite && cfgBefore != s.cfgDigest() {
+		// C11/C14: a status write never changes the configuration. If it does, it stored a
+		// document serialized before a configuration change that has been committed since.
+		s.w.violate("C11", "status-write-overwrote-newer-config", "a status write of the lifecycle service replaced the stored pipeline document by one serialized before a configuration change that had been committed in the meantime: the stored configuration lost that change")
+	}
+	if c := clientOf(ctx); c != "" && s.w.or != nil {
+		s.w.or.onAttributedWrite(s.w, c, before, stBefore)
+	}
 	return nil
 }
 
+var DebugStoreKey = os.Getenv("VERIF_DEBUG_KEY")
+
 func (s *SimStore) apply(changes map[string][]byte) {
+	if DebugStoreKey != "" {
+		if v, ok := changes[DebugStoreKey]; ok {
+			fmt.Fprintf(os.Stderr, "DBG step %d write %s = %.400s\n", s.w.step, DebugStoreKey, v)
+			if os.Getenv("VERIF_DEBUG_STACK") != "" && s.w.step >= 360 {
+				buf := make([]byte, 1<<14)
+				n := runtime.Stack(buf, false)
+				fmt.Fprintf(os.Stderr, "DBGSTACK %s\n", buf[:n])
+			}
+		}
+	}
 	for k, v := range changes {
 		if v == nil {
 			delete(s.durable, k)
@@ -192,9 +226,17 @@ func (t *simTxn) Commit() error {
 		}
 	}
 	t.done = true
+	before, stBefore := "", 0
+	if t.client != "" {
+		before = s.cfgDigest()
+		stBefore, _, _ = s.durableStatus(PipelineID)
+	}
 	s.apply(t.changes)
 	keys := append([]string(nil), t.order...)
 	s.w.log(Event{Kind: "TX_COMMIT", Inc: t.h.inc, N: t.id, OK: true, Pos: keys})
+	if t.client != "" && s.w.or != nil && len(t.changes) > 0 {
+		s.w.or.onAttributedWrite(s.w, t.client, before, stBefore)
+	}
 	return nil
 }
 
